@@ -155,10 +155,13 @@ def subset(from_table: {str: int}, name: str, parents: [int] = None) -> {}:
     if parents:
         for parent in parents:
             surname = construct(name, parent)
+            # exact name: the key is the surname itself or the surname
+            # followed by its version, never a longer name sharing a prefix
             result.update(
                 dict(
                     filter(
-                        lambda t, sn=surname: t[0].startswith(sn),
+                        lambda t, sn=surname: t[0] == sn
+                        or t[0].startswith(sn + '___version:'),
                         from_table.items(),
                     )
                 )
